@@ -75,6 +75,29 @@ def run(run):
     d2, f2 = run_cases(run, "random expressions x positions", rcases, ["DEFAULT", "MYSQL", "DB2"] if tier_q else DIALECTS[:1] + DIALECTS[1:2] + DIALECTS[3:], POSITIONS if not tier_q else POSITIONS[::2])
     dis += d2
     fails += f2
+    # chains of keyword predicates (they bind alike and group to the left) and their operands at every level, exhaustively for two links
+    w = exprgen.w
+    A, B, C, D, E = (["col", w(x)] for x in "abcde")
+
+    def pred(kind, left, k):
+        if kind == "btw":
+            return ["btw", str(k % 2)] + left + B + C
+        if kind == "in":
+            return ["in", str(k % 2), "2"] + left + D + E
+        if kind == "is":
+            return ["kw", "is", str(k % 2)] + left + ["lit", w("NULL")]
+        return ["kw", kind, str(k % 2)] + left + D
+    kinds = ["btw", "in", "is", "like", "rlike", "regexp"]
+    kcases = []
+    for i, k1 in enumerate(kinds):
+        for j, k2 in enumerate(kinds):
+            e = pred(k2, pred(k1, A, i), j)
+            kcases.append((e, []))
+            kcases.append((["and"] + e + ["cmp", "="] + A + B, []))
+            kcases.append((["not"] + e, []))
+    d4, f4 = run_cases(run, "keyword-predicate chains", kcases, ["DEFAULT", "MYSQL"] if tier_q else DIALECTS, POSITIONS[:2])
+    dis += d4
+    fails += f4
     hcases = []
     for _ in range(300 if tier_q else 3000):
         e = exprgen.gen(run.rng, run.rng.choice([1, 2, 3]), hive=True)
